@@ -56,8 +56,24 @@ class PoolFacts:
         self.cmthread = P.maybe_cls("CMThread", OWN_MOD)
         # queue aliases worker field -> pool field, from every _init_process along the factory pool's MRO
         self.alias: Dict[str, str] = {}
+        self.init_process_name = None
         for k in self.fpool.repo_mro():
-            f = k.methods.get("_init_process")
+            cands = []
+            for g in k.methods.values():
+                if g.self_name is None or len(g.params) != 2:
+                    continue
+                hits = 0
+                for n in walk_own(g.node):
+                    if isinstance(n, ast.Assign) and len(n.targets) == 1:
+                        td, vd = dotted(n.targets[0]), dotted(n.value)
+                        if td and vd and len(td) == 2 and td[0] == g.params[1] and len(vd) == 2 and vd[0] == g.self_name:
+                            hits += 1
+                if hits:
+                    cands.append(g)
+            if cands and self.init_process_name is None:
+                self.init_process_name = cands[0].name
+        for k in self.fpool.repo_mro():
+            f = k.methods.get(self.init_process_name) if self.init_process_name else None
             if f is None or len(f.params) < 2:
                 continue
             p = f.params[1]
